@@ -172,6 +172,18 @@ func cloneCfg(cfg *frost.Config) *frost.Config {
 	return &c
 }
 
+// consistentCfg makes the config's own verification share match its (changed) private share or id:
+// the start functions refuse a config whose private share does not belong to its public table
+func consistentCfg(cfg *frost.Config) *frost.Config {
+	pts := make(map[party.ID]curve.Point, len(cfg.VerificationShares.Points))
+	for id, p := range cfg.VerificationShares.Points {
+		pts[id] = p
+	}
+	pts[cfg.ID] = cfg.PrivateShare.ActOnBase()
+	cfg.VerificationShares = party.NewPointMap(pts)
+	return cfg
+}
+
 type bipCtx struct {
 	sk []byte
 	m  []byte
@@ -245,7 +257,7 @@ func init() {
 			case 0:
 				fc.m = c.Bytes(900 + c.Intn(300)) // crosses the 1024-byte BLAKE3 chunk boundary
 			case 1:
-				fc.m = c.Bytes(c.Intn(4))
+				fc.m = c.Bytes(1 + c.Intn(4)) // an empty message is refused at start (C20)
 			default:
 				fc.m = c.Bytes(32)
 			}
@@ -311,9 +323,11 @@ func init() {
 				c2.cfg = cfgs["b"]
 				c2.cfg = cloneCfg(c2.cfg)
 				c2.cfg.ID = c1.cfg.ID
+				c2.cfg = consistentCfg(c2.cfg)
 			case "sharebit":
 				c2.cfg = cloneCfg(c1.cfg)
 				c2.cfg.PrivateShare.Add(scalarOfBig(big.NewInt(1)))
+				c2.cfg = consistentCfg(c2.cfg)
 			}
 			o1 := c1.round1(mkSrc(mode))
 			o2 := c2.round1(mkSrc(mode))
